@@ -36,12 +36,29 @@ func c10State(st *engine.Step) {
 		wl[k] = true
 	}
 	configured := s.AB.Config.Modules.LogoutMethod
-	for _, m := range []string{"GET", "POST", "DELETE", "HEAD", "PUT", "PATCH", "OPTIONS"} {
+	// the configured method is evaluated twice: fault-free, and with the handler's own user lookup failing
+	// (the only db.Load a logout request performs: the remember and expire middlewares never load a user)
+	for _, m := range []string{"GET", "POST", "DELETE", "HEAD", "PUT", "PATCH", "OPTIONS", "fault:db.Load"} {
 		cl := w.Clone()
 		rq := flows.Logout(s, b)
 		rq.Method = m
+		faulted := strings.HasPrefix(m, "fault:")
+		if faulted {
+			m = configured
+			rq.Method = m
+			s.FaultLabel = "db.Load"
+		}
 		o := flows.Exec(s, cl, rq, "")
-		st.Count(1, "logout:"+map[bool]string{true: "configured-method", false: "other-method"}[m == configured])
+		s.FaultLabel = ""
+		if faulted {
+			if len(o.FaultFired) == 0 {
+				continue
+			}
+			shape += ",!fault(db.Load)"
+			st.Count(1, "logout:user-lookup-fails")
+		} else {
+			st.Count(1, "logout:"+map[bool]string{true: "configured-method", false: "other-method"}[m == configured])
+		}
 		if m != configured {
 			// only the remember middleware may act (it runs for every request); the logout handler must not
 			if o.Status != 404 && o.Status != 405 {
@@ -221,7 +238,7 @@ func init() {
 			scs := c10Scenarios(tier)
 			return e1Units(append(scs, configVariants(scs[:4], tier, "nil-state", "err500", "nomount")...))
 		},
-		Need: []string{"kind:logged-in", "kind:half-authed", "kind:logged-in-2fa", "kind:mid-2fa-totp", "kind:mid-2fa-sms", "kind:mid-setup-totp", "kind:mid-setup-sms", "kind:mid-oauth2",
+		Need: []string{"logout:user-lookup-fails", "kind:logged-in", "kind:half-authed", "kind:logged-in-2fa", "kind:mid-2fa-totp", "kind:mid-2fa-sms", "kind:mid-setup-totp", "kind:mid-setup-sms", "kind:mid-oauth2",
 			"kind:mid-email-verify", "kind:email-authorised", "kind:cookie-only", "kind:app-keys", "logout:configured-method", "logout:other-method"},
 		Assumptions: []string{"flash_success / flash_error written by the logout response itself are part of that response (form mode)", "bounded depth, one browser"},
 	})
